@@ -293,14 +293,16 @@ Fixpoint c10_mentions_applied (names : list str) (t : rtype) : bool :=
   | RHashMap k v => c10_mentions_applied names k || c10_mentions_applied names v
   end.
 
-(* every class a (language, package setting, input) falls in; [] = no finding class applies *)
+(* every class a (language, package setting, input) falls in; [] = no finding class applies.
+   No class depends on the package setting any more: C10-scala-package-brace (a package name without a dot and
+   something to print: closing braces without openers) was repaired in /repo (scala.rs end_package /
+   end_package_object); its witness is the regression pin C10_scala_package_brace_fixed and C10_lex_scala holds
+   for every package name. The argument is kept for the driver's protocol. *)
 Definition known_C10 (l : c10_lang) (package : str) (pd : parsed) : list string :=
   match l with
   | CSC =>
     (* `x: T = _` for serde(default) on a non-Option field: not valid in a parameter list *)
     c10_cls10 (existsb (fun f => has_default f && negb (c10_is_option (fty f))) (c10_all_fields pd)) "C10-scala-default" ++
-    (* a package name without a dot: no `package x {` opener, but the closing brace is printed *)
-    c10_cls10 (negb (contains_char 46 package) && c10_has_items pd) "C10-scala-package-brace" ++
     c10_cls10 (existsb (fun f => c10_digit_first (renamed (fid f))) (c10_all_fields pd)) "C10-digit-name"
   | CSW =>
     (* a property named inout / var / let: back-ticked where it is declared, raw as the init label *)
